@@ -108,7 +108,8 @@ def main():
             if place and os.path.exists(demo_file):
                 os.makedirs(os.path.dirname(os.path.join(wt, place)), exist_ok=True)
                 shutil.copy(demo_file, os.path.join(wt, place))
-            demo_cmd = ["go", "test", "-vet=off", "-count=1", "-timeout", "180s"] + (["-run", runpat] if runpat else []) + [pkg or "./" + os.path.dirname(place or "torrent/x") + "/"]
+            race = ["-race"] if re.search(r"go test[^\n]*\s-race\b", demo_txt) else []
+        demo_cmd = ["go", "test"] + race + ["-vet=off", "-count=1", "-timeout", "180s"] + (["-run", runpat] if runpat else []) + [pkg or "./" + os.path.dirname(place or "torrent/x") + "/"]
             rc0, o0 = sh(demo_cmd, cwd=wt, timeout=400)
             meta["demo_without_change"] = "PASS" if rc0 == 0 else "FAIL(rc=%d)" % rc0
             rc, o = sh(["git", "apply", patch], cwd=wt)
